@@ -1,4 +1,6 @@
 import RPVerif.Lemmas.Sched
+import RPVerif.Lemmas.SchedHist
+import RPVerif.Lemmas.NodeList
 
 /-!
 # C01 — Pilot resources are never oversubscribed
@@ -84,5 +86,64 @@ theorem C01_app_slots_witness :
 example : findResources { index := 3, cores := [.free, .down, .busy, .free, .free], gpus := [.down, .free, .free],
                           lfs := 10, mem := 0 } 2 2 10 4 0 true
     = .ok (some [{ node := 3, cores := [0, 3], gpus := [(1, 10)], lfs := 4, mem := 0 }]) := by rfl
+
+/-! ## placements over several nodes -/
+
+/-- **a whole placement is placeable**: whatever the node map, the request, the starting node and
+    the scattered / continuous mode, the slots `schedule_task`'s node loop collects name, on every
+    node, pairwise distinct FREE cores of the current map (the loop visits every node at most once) -/
+theorem C01_placement_placeable (c : Cfg) (nodes : List NodeSt) (r : Req) (cps spn req : Nat) (mpi : Bool)
+    (colo : Option (List Nat)) (skip : List Nat) (hw : NodesWF nodes) (hnn : NonNeg nodes) (hcps : 0 < cps)
+    (o0 : Nat) (it' : IterSt)
+    (h : nodeLoop c nodes r cps spn req mpi colo skip nodes.length { rem := req, offset := o0 % nodes.length } = .ok it') :
+    Placeable nodes it'.alc := by
+  refine nodeLoop_placeable c nodes r cps spn req mpi colo skip hw hnn hcps o0 nodes.length 0 _ it' (by omega) ?_ h
+  exact ⟨by simp, placeable_nil nodes, fun sl hs => by cases hs⟩
+
+/-! ## the application-level slot finder (`pilot.nodelist`) -/
+
+open RPVerif.NodeList in
+/-- **for every history of `find_slots` / `release_slots` calls** - whatever is requested, whatever
+    is released and in whatever order, failed requests included - no core and no GPU of any node is
+    ever occupied beyond one whole -/
+theorem C01_nodelist_bound (l : NL) (ops : List (Sum (RR × Nat) (List ASlot))) (h : AllBound l.nodes) :
+    AllBound (ops.foldl (fun l op => match op with
+                                     | .inl (rr, n) => (findSlots l rr n).2
+                                     | .inr slots   => releaseSlots l slots) l).nodes := by
+  induction ops generalizing l with
+  | nil => exact h
+  | cons op ops ih =>
+    rw [List.foldl_cons]
+    apply ih
+    cases op with
+    | inl p => exact findSlots_bound l p.1 p.2 h
+    | inr slots => exact releaseSlots_bound l slots h
+
+open RPVerif.NodeList in
+/-- a slot `Node.find_slot` hands out names pairwise distinct cores (GPUs) that are not DOWN and had
+    room for the requested occupation -/
+theorem C01_nodelist_slot_fits (n n' : ANode) (rr : RR) (s : ASlot) (h : findSlot n rr = some (s, n')) :
+    ((s.cores.map (·.1)).Pairwise (· < ·)) ∧ (∀ e ∈ s.cores, ∃ v, n.cores[e.1]? = some (some v) ∧ (e.2 : Int) ≤ 16 - v)
+    ∧ ((s.gpus.map (·.1)).Pairwise (· < ·)) ∧ (∀ e ∈ s.gpus, ∃ v, n.gpus[e.1]? = some (some v) ∧ (e.2 : Int) ≤ 16 - v) := by
+  obtain ⟨_, hs, _⟩ := findSlot_spec n n' rr s h
+  subst hs
+  simp only [mkSlot, pickCores, pickGpus]
+  refine ⟨?_, ?_, ?_, ?_⟩
+  · split
+    · exact (scan_spec _ _ 0 _).1
+    · simp
+  · split
+    · intro e he
+      obtain ⟨_, he2, v, hv, hr⟩ := (scan_spec _ _ 0 _).2.1 e he
+      exact ⟨v, by simpa using hv, by rw [he2]; exact hr⟩
+    · intro e he; cases he
+  · split
+    · exact (scan_spec _ _ 0 _).1
+    · simp
+  · split
+    · intro e he
+      obtain ⟨_, he2, v, hv, hr⟩ := (scan_spec _ _ 0 _).2.1 e he
+      exact ⟨v, by simpa using hv, by rw [he2]; exact hr⟩
+    · intro e he; cases he
 
 end RPVerif.C01
